@@ -78,8 +78,14 @@ pub fn format_all(directory: &Option<PathBuf>, args: &CliArguments) -> Result<Fo
         if !(entry.file_type().is_file() && entry.path().extension() == Some("typ".as_ref())) {
             continue;
         }
-        let Ok(content) = std::fs::read_to_string(entry.path()) else {
-            continue;
+        let content = match std::fs::read_to_string(entry.path()) {
+            Ok(content) => content,
+            Err(e) => {
+                // Report it like `format_many` does, instead of skipping the file silently.
+                error!("failed to read {}: {e}", entry.path().display());
+                summary.error_count += 1;
+                continue;
+            }
         };
         let cfg = args.style.to_config();
         let Ok(res) = Typstyle::new(cfg).format_content(&content) else {
